@@ -167,6 +167,32 @@ pub fn run(args: &Args) {
                     };
                     out.ev(json!({"ev":"badload","kind":kind,"accepted":res.is_ok()}));
                 }
+                3 if r.chance(1, 3) => {
+                    // ... and one it accepts: a well-formed snapshot of the machine's own model, every bank filled with its own
+                    // byte value. From here on the history starts from the file's memory and latch (the three instructions of
+                    // the driver are put back; the 48K SNA keeps its PC in the reserved bytes below them)
+                    use crate::files::*;
+                    use rustzx_core::host::Snapshot;
+                    let base = r.u8();
+                    let fill: Vec<u8> = (0..8u8).map(|b| base.wrapping_add(b.wrapping_mul(29)).wrapping_add(1)).collect();
+                    let mut cpu = CpuDesc::default();
+                    cpu.sp = CODE + 0x10;
+                    cpu.pc = CODE;
+                    cpu.im = 1;
+                    let mut latch = r.u8();
+                    if lock_rare && r.chance(9, 10) {
+                        latch &= !0x20;
+                    }
+                    let d = MachineDesc { m128, cpu, border: r.u8() & 7, latch: if m128 { latch } else { 0 }, banks: fill.iter().map(|f| vec![*f; 16384]).collect() };
+                    let kind = r.below(3);
+                    let res = match kind {
+                        0 => m.emu.load_snapshot(Snapshot::Sna(VAsset::new(if m128 { sna128(&d) } else { sna48(&d) }))),
+                        1 => m.emu.load_snapshot(Snapshot::Szx(VAsset::new(szx(&d, &SzxOpts::default())))),
+                        _ => m.emu.load_snapshot(Snapshot::Szx(VAsset::new(szx(&d, &SzxOpts { compressed: true, shuffle: r.below(1000), ..Default::default() })))),
+                    };
+                    poke_bytes(&mut m.emu, CODE, &[0xED, 0x79, 0x77, 0x7E]);
+                    out.ev(json!({"ev":"load","kind":kind,"latch":d.latch,"fill":fill,"accepted":res.is_ok()}));
+                }
                 3 => {
                     let (p, v) = (other_port(&mut r), r.u8());
                     m.out(p, v);
